@@ -19,6 +19,7 @@ TOOLCHAIN = '1.98.1-x86_64-unknown-linux-gnu'
 VERIF_MSG = [
     (r'^postcondition not satisfied', 'post'),
     (r'^precondition not satisfied', 'pre'),
+    (r'^precondition not met', 'pre'),
     (r'^invariant not satisfied before loop', 'inv-entry'),
     (r'^invariant not satisfied at end of loop body', 'inv-end'),
     (r'^assertion failed', 'assert'),
@@ -127,7 +128,7 @@ def run_unit(name: str, repo: str = '/repo', extra_args: List[str] = None, text_
     if text_override is not None:
         text = text_override(text, u, linemap)
     res.unit_obj, res.linemap, res.text = u, linemap, text
-    work = os.path.join(VERIF, '.work')
+    work = os.environ.get('VERIF_WORK_DIR', os.path.join(VERIF, '.work'))
     os.makedirs(work, exist_ok=True)
     path = os.path.join(work, name + (('.' + tag) if tag else '') + '.rs')
     open(path, 'w').write(text)
@@ -181,7 +182,27 @@ def run_unit(name: str, repo: str = '/repo', extra_args: List[str] = None, text_
             if re.search(rx, msg):
                 kind = k; break
         spans = d.get('spans', [])
-        prim = next((s for s in spans if s.get('is_primary')), spans[0] if spans else None)
+        def in_my_file(sp):
+            # a span inside a std macro (panic!, assert!, unreachable!) points into the macro definition:
+            # follow the expansion chain back to the invocation in the generated file
+            seen = 0
+            while sp is not None and seen < 12:
+                if os.path.basename(sp.get('file_name', '')) == os.path.basename(path):
+                    return sp
+                sp = (sp.get('expansion') or {}).get('span')
+                seen += 1
+            return None
+        mine = []
+        for sp0 in spans:
+            sp1 = in_my_file(sp0)
+            if sp1 is not None:
+                if sp1 is not sp0:
+                    sp1 = dict(sp1, is_primary=sp0.get('is_primary'), label=sp0.get('label'))
+                mine.append(sp1)
+        # a failed precondition of a vstd function (panic!, unwrap, index ..) has its primary span in vstd:
+        # name the obligation by the call site in the generated file
+        prim = next((s for s in mine if s.get('is_primary')), mine[0] if mine else None)
+        spans = mine
         if kind is None or prim is None:
             res.other_errors.append(msg + (' @%d' % prim['line_start'] if prim else ''))
             continue
